@@ -193,6 +193,23 @@ pub fn execute(case: &Case) -> (Vec<Finding>, Obs) {
                 f.push(("edges-for", format!("edges_for({m}) yields {got} edges, the gate graph has {want}")));
             }
         }
+        // the same through the node handles: every edge listed for a node starts at that node
+        for node in topo.nodes() {
+            let path = node.module().path();
+            let Some(i) = case.modules.iter().position(|m| m.as_str() == path.as_str()) else { continue };
+            let want = reference.edges.iter().filter(|e| e.0 == i).count();
+            let mut got = 0usize;
+            for e in topo.edges_for_node(node) {
+                got += 1;
+                if e.from.module().path().as_str() != path.as_str() {
+                    f.push(("edges-for", format!("edges_for_node({path}) lists an edge that starts at {}", e.from.module().path())));
+                    break;
+                }
+            }
+            if got != want {
+                f.push(("edges-for", format!("edges_for_node({path}) yields {got} edges, the gate graph has {want}")));
+            }
+        }
         let adj = reference.adj(&all, &all_e);
         let ref_connected = (0..n).all(|s| Reference::bfs(&adj, s).iter().all(Option::is_some));
         if topo.connected() != ref_connected {
